@@ -307,6 +307,7 @@ class Generator:
             sig = fn(sig, *a)
             body = fn(body, *a)
         both(R.r1_attrs, log)
+        sig = R.r16_pub_super(sig, log)
         both(R.r2_panics, log)
         both(R.r3_const_uses, self.x.const_names, self_is_bnum, log)
         both(R.r6_int_ident, log)
